@@ -36,6 +36,10 @@ async fn dispatch(ty: &str, bytes: &[u8]) -> Option<(Result<Vec<u8>, String>, bo
         "PatchResponse" => dec::<PatchResponse>(bytes).await,
         "CreateSet" => dec::<CreateSet>(bytes).await,
         "UpdateSet" => dec::<UpdateSet>(bytes).await,
+        "FileSet" => dec::<sos_protocol::transfer::FileSet>(bytes).await,
+        "FileTransfersSet" => dec::<sos_protocol::transfer::FileTransfersSet>(bytes).await,
+        "NetworkChangeEvent" => dec::<sos_protocol::NetworkChangeEvent>(bytes).await,
+        "Origin" => dec::<sos_core::Origin>(bytes).await,
         _ => return None,
     })
 }
@@ -63,7 +67,15 @@ pub fn run(cli: &Cli) {
             let w = crate::world::World::new(1, "fs").await?;
             let a = w.devices[0].lock().await;
             let cs = a.create_set().await?;
-            if let Ok(b) = cs.encode().await { WIRE_TYPED.lock().unwrap().push(("CreateSet".into(), b.to_vec())); }
+            let cs_copy = a.create_set().await?;
+            if let Ok(b) = cs.encode().await {
+                WIRE_TYPED.lock().unwrap().push(("CreateSet".into(), b.to_vec()));
+                crate::bridge::WIRE_VALUES_CHECKED.fetch_add(1, Ordering::Relaxed);
+                match CreateSet::decode(bytes::Bytes::copy_from_slice(&b)).await {
+                    Ok(back) => if back != cs_copy { crate::bridge::WIRE_VALUE_DIFFERS.lock().unwrap().push(("CreateSet".into(), "decoded create set differs from the one encoded".into())); },
+                    Err(e) => crate::bridge::WIRE_VALUE_DIFFERS.lock().unwrap().push(("CreateSet".into(), format!("decode error: {e}"))),
+                }
+            }
             // an update set with the identity log replaced (as a password change sends)
             let cs = a.create_set().await?;
             let mut t = sos_core::commit::CommitTree::new();
@@ -71,12 +83,77 @@ pub fn run(cli: &Cli) {
             t.append(&mut hashes); t.commit();
             if let Ok(cp) = t.head() {
                 let us = UpdateSet { identity: Some(sos_core::events::patch::FolderDiff { last_commit: None, patch: cs.identity, checkpoint: cp }), account: None, device: None, files: None, folders: Default::default() };
-                if let Ok(b) = us.encode().await { WIRE_TYPED.lock().unwrap().push(("UpdateSet".into(), b.to_vec())); }
+                let us_copy = us.clone();
+                if let Ok(b) = us.encode().await {
+                    WIRE_TYPED.lock().unwrap().push(("UpdateSet".into(), b.to_vec()));
+                    crate::bridge::WIRE_VALUES_CHECKED.fetch_add(1, Ordering::Relaxed);
+                    match UpdateSet::decode(bytes::Bytes::copy_from_slice(&b)).await {
+                        Ok(back) => if back != us_copy { crate::bridge::WIRE_VALUE_DIFFERS.lock().unwrap().push(("UpdateSet".into(), "decoded update set differs from the one encoded".into())); },
+                        Err(e) => crate::bridge::WIRE_VALUE_DIFFERS.lock().unwrap().push(("UpdateSet".into(), format!("decode error: {e}"))),
+                    }
+                }
             }
             anyhow::Ok(())
         });
     }
+    // generated values of the message types no sync session of the harness sends: file sets (compare_files),
+    // change notifications (websocket), origins
+    rt.block_on(async {
+        use sos_core::{ExternalFile, ExternalFileName, SecretPath};
+        use sos_protocol::transfer::{FileSet, FileTransfersSet};
+        use sos_sync::{MergeOutcome, TrackedAccountChange, TrackedChanges, TrackedDeviceChange, TrackedFileChange, TrackedFolderChange};
+        let mut rng = Rng::new(cli.seed ^ 0xF11E);
+        let mut uid = |rng: &mut Rng| uuid::Uuid::from_u128(((rng.next() as u128) << 64) | rng.next() as u128);
+        let mut file = |rng: &mut Rng| { let n: [u8; 32] = sha256(&rng.next().to_le_bytes()); ExternalFile::new(SecretPath(uid(rng), uid(rng)), ExternalFileName::from(n)) };
+        async fn check<T: WireEncodeDecode + Clone + PartialEq + std::fmt::Debug>(ty: &str, v: T, same: impl Fn(&T, &T) -> bool) {
+            crate::bridge::WIRE_VALUES_CHECKED.fetch_add(1, Ordering::Relaxed);
+            match v.clone().encode().await {
+                Ok(b) => {
+                    WIRE_TYPED.lock().unwrap().push((ty.to_string(), b.to_vec()));
+                    match T::decode(bytes::Bytes::copy_from_slice(&b)).await {
+                        Ok(back) => if !same(&back, &v) { crate::bridge::WIRE_VALUE_DIFFERS.lock().unwrap().push((ty.to_string(), format!("sent {:?} decoded {:?}", v, back).chars().take(500).collect())); },
+                        Err(e) => crate::bridge::WIRE_VALUE_DIFFERS.lock().unwrap().push((ty.to_string(), format!("decode error: {e}"))),
+                    }
+                }
+                Err(e) => crate::bridge::WIRE_VALUE_DIFFERS.lock().unwrap().push((ty.to_string(), format!("encode error: {e}"))),
+            }
+        }
+        for round in 0..(if thorough { 60 } else { 12 }) {
+            let mut fs = FileSet(Default::default());
+            for _ in 0..rng.below(5) { fs.0.insert(file(&mut rng)); }
+            check("FileSet", fs.clone(), |a, b| a == b).await;
+            let mut dl = FileSet(Default::default());
+            for _ in 0..rng.below(4) { dl.0.insert(file(&mut rng)); }
+            check("FileTransfersSet", FileTransfersSet { uploads: fs, downloads: dl }, |a, b| a == b).await;
+            let mut tracked = TrackedChanges::default();
+            let fc = |rng: &mut Rng, id: uuid::Uuid| match rng.below(3) { 0 => TrackedFolderChange::Created(id), 1 => TrackedFolderChange::Updated(id), _ => TrackedFolderChange::Deleted(id) };
+            for _ in 0..rng.below(3) { let id = uid(&mut rng); tracked.identity.insert(fc(&mut rng, id)); }
+            for _ in 0..rng.below(3) { let k: sos_core::device::DevicePublicKey = sha256(&rng.next().to_le_bytes()).into(); tracked.device.insert(if rng.chance(1, 2) { TrackedDeviceChange::Trusted(k) } else { TrackedDeviceChange::Revoked(k) }); }
+            for _ in 0..rng.below(3) { let id = uid(&mut rng); tracked.account.insert(match rng.below(3) { 0 => TrackedAccountChange::FolderCreated(id), 1 => TrackedAccountChange::FolderUpdated(id), _ => TrackedAccountChange::FolderDeleted(id) }); }
+            for _ in 0..rng.below(3) {
+                let f = file(&mut rng); let g = file(&mut rng);
+                tracked.files.insert(match rng.below(3) {
+                    0 => TrackedFileChange::Created(SecretPath(*f.vault_id(), *f.secret_id()), *f.file_name()),
+                    1 => TrackedFileChange::Moved { name: *f.file_name(), from: SecretPath(*f.vault_id(), *f.secret_id()), dest: SecretPath(*g.vault_id(), *g.secret_id()) },
+                    _ => TrackedFileChange::Deleted(SecretPath(*f.vault_id(), *f.secret_id()), *f.file_name()) });
+            }
+            for _ in 0..rng.below(3) { let vid = uid(&mut rng); let mut set = indexmap::IndexSet::new(); for _ in 0..(1 + rng.below(3)) { let id = uid(&mut rng); set.insert(fc(&mut rng, id)); } tracked.folders.insert(vid, set); }
+            let outcome = MergeOutcome { changes: rng.below(1 << 40), tracked, ..Default::default() };
+            let root = sos_core::commit::CommitHash(sha256(&rng.next().to_le_bytes()));
+            let conn = ["", "conn", "接続-1", "a b\tc"][rng.below(4) as usize].to_string();
+            check("NetworkChangeEvent", sos_protocol::NetworkChangeEvent::new(&sos_core::AccountId::random(), conn, root, outcome), |a, b| a == b).await;
+            let name = ["", "server", "サーバー", "x\u{0}y"][rng.below(4) as usize].to_string();
+            let url = ["https://example.com", "http://127.0.0.1:5053/", "https://sos.example.org:8443/api/v1?x=1#frag", "http://[::1]:80/%E2%9C%93"][rng.below(4) as usize];
+            check("Origin", sos_core::Origin::new(name, url.parse().unwrap()), |a, b| a.name() == b.name() && a.url() == b.url()).await;
+            let _ = round;
+        }
+    });
     WIRE_TYPED_ON.store(false, Ordering::Relaxed);
+    // value-level round trips done while the messages were on their way
+    rep.count_n("value-roundtrips-checked", crate::bridge::WIRE_VALUES_CHECKED.load(Ordering::Relaxed));
+    for (ty, what) in std::mem::take(&mut *crate::bridge::WIRE_VALUE_DIFFERS.lock().unwrap()) {
+        rep.spec_fail(&format!("wire-roundtrip-differs:value:{ty}"), json!({"what": what}), "the message a receiver decodes differs from the value the sender encoded");
+    }
     let captured = std::mem::take(&mut *WIRE_TYPED.lock().unwrap());
     // distinct messages, a bounded number per type (largest and smallest first)
     let mut by_type: BTreeMap<String, BTreeMap<[u8; 32], Vec<u8>>> = BTreeMap::new();
@@ -95,7 +172,10 @@ pub fn run(cli: &Cli) {
             match rt.block_on(dispatch(ty, bytes)) {
                 None => { rep.count(&format!("type-not-dispatched:{ty}")); break; }
                 Some((Ok(b2), p)) => {
-                    if &b2 != bytes { rep.spec_fail(&format!("wire-roundtrip-differs:{ty}"), json!({"len": bytes.len(), "reencoded_len": b2.len(), "bytes": hex::encode(&bytes[..bytes.len().min(200)])}), "decode then encode of a real wire message gives different bytes"); }
+                    // a change notification keeps its per-folder changes in a HashMap: the re-encoding may list the folders in
+                    // another order (the value-level round trip above is exact); compare the bytes as a multiset there
+                    let same = if ty == "NetworkChangeEvent" { let (mut x, mut y) = (b2.clone(), (*bytes).clone()); x.sort(); y.sort(); x == y } else { &b2 == bytes };
+                    if !same { rep.spec_fail(&format!("wire-roundtrip-differs:{ty}"), json!({"len": bytes.len(), "reencoded_len": b2.len(), "bytes": hex::encode(&bytes[..bytes.len().min(200)])}), "decode then encode of a real wire message gives different bytes"); }
                     if p { rep.spec_fail(&format!("decode-panics:wire:{ty}"), json!({"kind": "valid"}), "decoding a valid message panicked"); }
                 }
                 Some((Err(e), p)) => {
